@@ -75,7 +75,7 @@ def position_of(v):
     return 'field_attr'
 
 
-def build_signature(value, position, via='direct'):
+def build_signature(value, position, via='direct', model_name='Ab'):
     """A project signature that holds `value` at `position`; via='objects'
     builds the index / constraint signatures from real Django Index and
     constraint objects (IndexSignature.from_index, ConstraintSignature.
@@ -87,7 +87,7 @@ def build_signature(value, position, via='direct'):
     ps = ProjectSignature()
     app_sig = AppSignature(app_id='vapp')
     ps.add_app_sig(app_sig)
-    msig = ModelSignature(model_name='Ab', table_name='vapp_ab', pk_column='id',
+    msig = ModelSignature(model_name=model_name, table_name='vapp_%s' % model_name.lower(), pk_column='id',
                           unique_together=[('alpha', 'beta')], unique_together_applied=True)
     msig.add_field_sig(FieldSignature('id', models.AutoField, {'primary_key': True}))
     attrs = {'max_length': 10}
@@ -184,6 +184,40 @@ def storage_round_trip(value, position, through_db, via='direct'):
             obs['texts'] = [text1[-300:], text2[-300:]]
     except Exception as e:
         obs['compare_error'] = '%s: %s' % (type(e).__name__, e)
+    return obs
+
+
+def pair_round_trip(first, second, position, via, through_db):
+    """One project signature with `first` on model Ab and `second` on model Cd,
+    stored and read back; the reloaded signature must re-serialise to the very
+    text it was stored as (type-strict: True is not 1)."""
+    from django_evolution.models import Version
+    from django_evolution.signature import ProjectSignature
+    try:
+        sig = build_signature(first, position, via, 'Ab')
+        other = build_signature(second, position, via, 'Cd')
+        sig.get_app_sig('vapp').add_model_sig(other.get_app_sig('vapp').get_model_sig('Cd'))
+        text1 = json.dumps(sig.serialize(), sort_keys=True)
+    except NotApplicable:
+        return None
+    except (ValueError, TypeError):
+        return None
+    obs = {}
+    try:
+        if through_db:
+            version = Version(signature=sig)
+            version.save()
+            back = Version.objects.get(pk=version.pk).signature
+            version.delete()
+        else:
+            back = ProjectSignature.deserialize(json.loads(text1, object_pairs_hook=OrderedDict))
+        text2 = json.dumps(back.serialize(), sort_keys=True)
+        obs['same_text'] = text1 == text2
+        if text1 != text2:
+            k = next((i for i, (a, b) in enumerate(zip(text1, text2)) if a != b), 0)
+            obs['texts'] = [text1[max(0, k - 120):k + 60], text2[max(0, k - 120):k + 60]]
+    except Exception as e:
+        obs['error'] = '%s: %s' % (type(e).__name__, e)
     return obs
 
 
